@@ -40,6 +40,11 @@ Proof.
   - reflexivity.
 Qed.
 
+Lemma den_str_cases src : den_str src = DRefuse \/ exists v, den_str src = DVal (PStr v).
+Proof.
+  destruct src as [t o|v|x]; cbn; eauto. destruct v; cbn; eauto.
+Qed.
+
 (* ---- characters (axis label / title position) ---- *)
 Lemma skip_space_head t c r : skip_space t = c :: r -> is_space c = false.
 Proof.
@@ -86,6 +91,15 @@ Proof.
   - reflexivity.
 Qed.
 
+Lemma den_chrkey_cases s :
+  den_chrkey s = DRefuse \/ den_chrkey s = DDefault \/ den_chrkey s = DKeep \/ exists c, den_chrkey s = DVal (PChr c).
+Proof.
+  destruct s as [t o|v|x]; cbn [den_chrkey].
+  - destruct t as [[|a t]|]; auto. destruct (skip_space (a :: t)); eauto 6.
+  - unfold den_num. destruct (src_number NChr (SValue v)); eauto 6.
+  - unfold den_num. destruct (src_number NChr (SObj x)); eauto 6.
+Qed.
+
 (* ---- line attributes ---- *)
 Lemma lattr_pset_spec cur s def hi : 0 <= hi <= 255 ->
   lattr_pset cur s def 0 hi =
@@ -120,3 +134,34 @@ Proof.
   unfold set_lg. apply Z.bits_inj'. intros n Hn. rewrite Z.land_spec, Z.lor_spec.
   destruct (Z.testbit LG n); [rewrite orb_true_r|rewrite andb_false_r]; reflexivity.
 Qed.
+
+(* another object is never a value for a named property *)
+Lemma apply_named_obj k o p h x : apply_named k o p h (ASrc (SObj x)) = (false, o).
+Proof.
+  unfold apply_named, denote.
+  destruct h; reflexivity.
+Qed.
+
+(* ---- name dispatch: both sides are if-chains over the same tests ---- *)
+Lemma ceqs_lowers n lit : ceqs n lit = beq (lowers n) (lowers (bs lit)).
+Proof. unfold ceqs. apply caseeq_lowers. Qed.
+
+Ltac norm_names :=
+  unfold in_names, exact_names, existsb, eqs;
+  rewrite ?ceqs_lowers;
+  repeat match goal with
+  | |- context [lowers (bs ?s)] => let v := eval vm_compute in (lowers (bs s)) in change (lowers (bs s)) with v
+  end;
+  repeat match goal with
+  | |- context [bs ?s] =>
+    match s with
+    | String _ _ => let v := eval vm_compute in (bs s) in change (bs s) with v
+    end
+  end;
+  rewrite ?orb_false_r.
+
+
+Lemma wf_value v : wf_osrc (XValue v) -> wf_source (SValue v).
+Proof. destruct v; auto. Qed.
+Lemma wf_text_src t o : wf_osrc (XText t o) -> wf_source (SText t o).
+Proof. auto. Qed.
